@@ -307,6 +307,17 @@ def C14(ctx):
     ctx.run(cases, nontrivial=lambda c: c['key'] != 'N/', runtime=True, switches=ALL)
 
 
+def C15(ctx):
+    import copydecl
+    ctx.rules.append('family D (WireCopyDecl): 35 productions of the declaration/statement/expression grammar (every statement form, labels, closures, shadowing, struct tags, doc comments, generics incl. two type parameters, '
+                     'composite literals, 2- and 3-index slices, channel directions, ...) x 6 import contexts (plain, source alias differs from generated alias, dot import, local identifier equal to an import name, two imports with one base name, '
+                     'generated alias already taken at package scope); every case non-trivial; judge (WireJudge!CopyOK): every non-injector declaration exactly once and in source order, the package builds with and without the wireinject tag, '
+                     'and a probe exercising the declarations observes identical values under both builds')
+    cases = ctx.export('FamilyD(p)', extends='WireCopyDecl', caseop='CaseD')
+    ctx.res.cov['exhaustive'] = True
+    copydecl.run(ctx, cases)
+
+
 def C16(ctx):
     import det
     ctx.rules.append('WireConfig: the configuration lattice {module, module+vendor, GOPATH, GOPATH+vendor} x {2 checkout locations} x {wire gen . in the package dir, ./app from the root, ./..., import path} x {alone, with three other packages} x repetitions, '
@@ -345,6 +356,7 @@ PROPS = {
     'C12': dict(fn=C12, level='model_checking'),
     'C13': dict(fn=C13, level='exploration'),
     'C14': dict(fn=C14, level='exploration'),
+    'C15': dict(fn=C15, level='exploration'),
     'C16': dict(fn=C16, level='exploration'),
     'C17': dict(fn=C17, level='model_checking'),
     'C18': dict(fn=C18, level='model_checking'),
